@@ -213,6 +213,29 @@ def _q_trans_igm(species: "Species", ss: str, temp: float) -> float:
     return q_trans
 
 
+def _moi_about_com(species: "Species"):
+    """
+    Moment of inertia matrix of a species about its centre of mass, which
+    unlike species.moi (about the origin) is invariant to translation
+
+    ---------------------------------------------------------------------------
+    Arguments:
+        species (autode.species.Species):
+
+    Returns:
+        (autode.values.MomentOfInertia):
+    """
+    assert species.atoms is not None and species.moi is not None
+
+    moi = species.moi.to("amu Å^2").copy()
+    com = np.array(species.com.to("Å"), dtype=float)
+    total_mass = sum(float(atom.mass.to("amu")) for atom in species.atoms)
+
+    # Parallel axis theorem: I_com = I_origin - M(|c|^2 1 - c c^T)
+    moi -= total_mass * (np.dot(com, com) * np.eye(3) - np.outer(com, com))
+    return moi
+
+
 def _q_rot_igm(species: "Species", temp: float, sigma_r: int) -> float:
     """
     Calculate the rotational partition function using the IGM method. Uses the
@@ -252,7 +275,7 @@ def _q_rot_igm(species: "Species", temp: float, sigma_r: int) -> float:
         )
 
     # otherwise a polyatomic..
-    i_mat = species.moi.to("kg m^2")
+    i_mat = _moi_about_com(species).to("kg m^2")
     # principal moments of inertia, which do not depend on the orientation
     omega_diag = SIConstants.h**2 / (
         8.0 * np.pi**2 * SIConstants.k_b * np.linalg.eigvalsh(i_mat)
@@ -395,7 +418,7 @@ def _grimme_s_vib(
     w0 = float(omega_0.to("cm-1")) if hasattr(omega_0, "to") else omega_0
 
     # Average I = (I_xx + I_yy + I_zz) / 3.0
-    b_avg = np.trace(species.moi.to("kg m^2")) / 3.0
+    b_avg = np.trace(_moi_about_com(species).to("kg m^2")) / 3.0
 
     for freq in species.vib_frequencies:
         omega = float(freq.real.to("hz"))
